@@ -38,6 +38,10 @@ def cases(tier):
         out.append(dict(na=na, nb=nb, kseg=2, ev='termA', pop='end'))
     out.append(dict(na=1, nb=0, kseg=2, ev='refuse', pop='end'))
     out.append(dict(na=2, nb=0, kseg=2, ev='refuse', pop='end'))
+    # UDPCL receive path with peer-controlled extension-map values
+    for nid in ('text', 'absent', 'uint', 'bytes'):
+        out.append(dict(udpcl='listen', nodeid=nid))
+    out.append(dict(udpcl='transfer'))
     return out
 
 
@@ -53,9 +57,44 @@ class Ghost(object):
         self.started_rx = []
 
 
+def udpcl_harness(c, case):
+    ''' UDPCL: every signal caused by one received datagram conforms to its signature. '''
+    import dbus.service
+    from vf import symcbor
+    from checks.c13 import make_agent, conv
+    ag = make_agent(None)
+    if case['udpcl'] == 'listen':
+        ext = {3: c.sym_int('interval_ms', 0, 2 ** 64 - 1)}
+        nid = case['nodeid']
+        if nid == 'text':
+            ext[4] = 'dtn://peer/'
+        elif nid == 'uint':
+            ext[4] = c.sym_int('nodeid_uint', 0, 2 ** 32)
+        elif nid == 'bytes':
+            ext[4] = b'dtn://peer/'
+        d = symcbor.dumps(ext)
+    else:
+        n = c.sym_int('len', 0, 2 ** 32, size=True)
+        d = symcbor.dumps({2: [c.sym_int('tid', 0, 2 ** 64 - 1), n, 0, c.sym_blob('data', n)]})
+    try:
+        ag._recv_datagram(None, d, conv())
+        err = None
+    except Exception as e:
+        err = e
+    c.prove(err is None, 'udpcl:no-exception-on-peer-values[%s]' % case.get('nodeid', 'transfer'), detail=repr(err))
+    for (kind, iface, name, sig, args, obj) in dbus.service.EMITTED:
+        res = dbussig.check(sig, list(args), '%s %s' % (kind, name))
+        c.prove(not res.problems, 'udpcl:dbus-type[%s]' % name, detail=res.problems)
+        for (cond, text) in res.obligations:
+            c.prove(cond, 'udpcl:dbus-range[%s]' % name, detail=text)
+    return {'class': 'event', 'signals': [n for (k, i, n, s_, a, o) in dbus.service.EMITTED]}
+
+
 def harness(case, tier):
     import dbus.service
     c = cur()
+    if case.get('udpcl'):
+        return udpcl_harness(c, case)
     w = build_world(c)
     ok = establish(w)
     c.prove(ok, 'established')
